@@ -385,6 +385,47 @@ func checkFill(c *fillCase) (msg string, harnessErr string, info map[string]int)
 		}
 		return ""
 	}
+	// render words: a bare word given as a render property value reaches the
+	// SQL as exactly that word, whatever else in the program bears the name
+	for _, side := range []struct {
+		prog *gen.Program
+		toks []sqlx.Tok
+		sql  string
+	}{{base, bCH, rb.SQL}, {host, hCH, rh.SQL}} {
+		got := map[string]int{}
+		for i := 0; i+2 < len(side.toks); i++ {
+			if side.toks[i].Kind == sqlx.TString && side.toks[i+1].Kind == sqlx.TWord && side.toks[i+1].Val == "AS" && side.toks[i+2].Kind == sqlx.TQIdent && strings.HasPrefix(side.toks[i+2].Val, "render_prop_") {
+				got[side.toks[i+2].Val+"\x00"+side.toks[i].Val]++
+			}
+		}
+		var miss string
+		for _, st := range side.prog.Stmts {
+			t, ok := st.(*gen.Tabular)
+			if !ok {
+				continue
+			}
+			gen.WalkTabular(t, func(_ *gen.Tabular, op gen.Op) {
+				r, ok := op.(*gen.Render)
+				if !ok {
+					return
+				}
+				for _, p := range r.Props {
+					if q, ok := p.Value.(*gen.QIdent); ok && len(q.Parts) == 1 {
+						key := "render_prop_" + p.Name.Name + "\x00" + q.Parts[0].Name
+						if got[key] == 0 {
+							miss = fmt.Sprintf("the render property %s = %s (a bare word) does not reach the SQL as the string '%s'", p.Name.Name, q.Parts[0].Name, q.Parts[0].Name)
+						} else {
+							got[key]--
+						}
+					}
+				}
+			})
+			break // lets after the query do not matter; one tabular statement
+		}
+		if miss != "" {
+			return miss + "\nsql: " + side.sql, "", info
+		}
+	}
 	if m := compare(bStd, hStd, false, "standard"); m != "" {
 		return m + "\nsql: " + rh.SQL, "", info
 	}
